@@ -4,7 +4,7 @@
 # 2. applies it to /repo, runs the property's quick check, and undoes it.
 set -u
 export GOFLAGS=-mod=mod GOPROXY=off GOSUMDB=off GOTOOLCHAIN=local
-prop=$1; d=$2; pkg=${3:-align}
+prop=$1; d=$2; pkg=${3:-$(python3 -c "import json,sys;print(json.load(open(sys.argv[1])).get('pkgdir','align'))" $d/meta.json)}
 wt=/tmp/seedwt.$$
 git -C /repo worktree add -q $wt HEAD || exit 2
 trap 'git -C /repo worktree remove --force '$wt' >/dev/null 2>&1' EXIT
